@@ -569,6 +569,7 @@ def main():
                 'odd cases: generated sentinel documents (paragraphs, headings, lists, quotes, tables, definition lists, code, links, notes, math, super/subscript) in a random spelling; '
                 'x {html, latex, beamer, memoir, fodt, opml}; smart typography off; distinct = distinct sources (conservation cases count when >= 5 body words)' %
                 (len(LITERAL), len(TEXT_SLOTS), len(VERBATIM_SLOTS), len(ATTR_SLOTS)))
+    chk.rule = chk.rule + ' ; plus: autolinked addresses decoded and compared, figures with 1-3 character alternative texts / titles and citation locators with reserved characters, images alone in a cell / term / item, headings pushed beyond the deepest level, text after a table caption, and every 12th conservation document exported four times from one parsed tree'
     chk.assumptions = ['documents contain no raw HTML, raw-source filters, {{TOC}} or abbreviations (the exceptions the property names)',
                        'allowed escaped forms per format are taken from the format\'s own rules (XML entities; LaTeX control sequences listed in LATEX_ESC)']
     chunk = max(20, n // 64)
